@@ -712,7 +712,7 @@ Proof.
   rewrite <- app_assoc. cbn [app]. change 34 with r_quote at 2.
   rewrite lit_mode by (apply quote_body_scan; exact Hnl).
   cbn [p_expr]. change (r_rparen =? r_quote) with false. change (r_rparen =? r_lparen) with false.
-  change (r_rparen =? r_rparen) with true. cbn [Nat.pred Nat.eqb pre]. rewrite <- app_assoc. reflexivity.
+  change (r_rparen =? r_rparen) with true. cbn [Nat.pred Nat.eqb pre]. reflexivity.
 Qed.
 
 (* two closed expressions joined by text that contains no quote and no parenthesis *)
@@ -734,9 +734,9 @@ Proof.
   intros Hnl Hm rest. unfold quote at 1. cbn [app p_expr]. change (34 =? r_quote) with true. cbv iota.
   rewrite <- !app_assoc. cbn [app]. change 34 with r_quote at 2.
   rewrite lit_mode by (apply quote_body_scan; exact Hnl).
-  rewrite <- app_assoc, (p_expr_plain m 1 _ Hm).
-  rewrite <- app_assoc. rewrite (quoted_closed printable t Hnl rest). cbn [pre].
-  rewrite <- !app_assoc. reflexivity.
+  rewrite (p_expr_plain m 1 _ Hm).
+  rewrite (quoted_closed printable t Hnl rest). cbn [pre].
+  unfold quote at 2. cbn [app]. rewrite <- !app_assoc. reflexivity.
 Qed.
 
 (* a template that consists of one expression: one EXPRESSION token, then EOF *)
